@@ -58,6 +58,9 @@ def cases(tier, seed):
     for p in GM.gen_twice():
         for a, w in (((2, 4, 8), (2, 4, 8)), ((8, 2), (4, 2, 8))):
             out.append({'mode': 'layer', 'prog': p, 'a': list(a), 'w': list(w), 'tier': tier})
+    # the same grammar in 1D (MPSConv1d has its own get_cost / get_modified_vars)
+    for p in GM.gen(2, with_opts=False) + GM.gen_twice():
+        out.append({'mode': 'layer', 'prog': dict(p, dim=1, size=8), 'a': [2, 4, 8], 'w': [4, 2, 8], 'tier': tier})
     for p in GM.gen(1, with_opts=False):
         if p['head'] == 'flatlin':
             for a in GM.precision_tuples():
@@ -69,6 +72,8 @@ def cases(tier, seed):
         for w in ((2, 4, 8), (0, 2, 4, 8), (0, 8), (4, 0, 2)):
             for a in ((8,), (4, 8)):
                 out.append({'mode': 'channel', 'prog': prog, 'a': list(a), 'w': list(w), 'tier': tier})
+        for w in ((2, 4, 8), (0, 2, 8)):
+            out.append({'mode': 'channel', 'prog': dict(prog, dim=1, size=8), 'a': [4, 8], 'w': list(w), 'tier': tier})
     return out
 
 
@@ -81,7 +86,7 @@ def _orig_shapes(prog, seed):
     shapes = {}
     hooks = []
     for n, m in model.named_modules():
-        if isinstance(m, (nn.Conv2d, nn.Linear)):
+        if isinstance(m, (nn.Conv1d, nn.Conv2d, nn.Linear)):
             hooks.append(m.register_forward_hook(lambda mod, i, o, n=n: shapes.setdefault(n, []).append(tuple(o.shape))))
     with torch.no_grad():
         model(x)
@@ -89,9 +94,9 @@ def _orig_shapes(prog, seed):
         h.remove()
     info = {}
     for n, m in model.named_modules():
-        if isinstance(m, nn.Conv2d):
+        if isinstance(m, (nn.Conv1d, nn.Conv2d)):
             info[n] = {'type': 'conv', 'cin': m.in_channels, 'cout': m.out_channels, 'k': m.kernel_size, 'dw': m.groups == m.in_channels == m.out_channels and m.groups > 1,
-                       'out_hw': shapes[n][0][2:], 'sites': sum(sh[2] * sh[3] for sh in shapes[n])}
+                       'out_hw': shapes[n][0][2:], 'sites': sum(math.prod(sh[2:]) for sh in shapes[n])}
         elif isinstance(m, nn.Linear):
             info[n] = {'type': 'linear', 'cin': m.in_features, 'cout': m.out_features}
     return info, model
@@ -158,7 +163,7 @@ def _ref_costs(prog, info, summ, model):
         bits = wprec(name)
         in_bits = summ[name]['in_precision']
         if li['type'] == 'conv':
-            kk = li['k'][0] * li['k'][1]
+            kk = math.prod(li['k'])
             sites = li['sites']       # output positions summed over every call site of the layer
             per_out = kk if li['dw'] else kk * in_alive
         else:
@@ -180,7 +185,7 @@ def _ref_costs(prog, info, summ, model):
 
 def _probe_spec(record):
     from plinio.cost import CostSpec
-    from plinio.cost.pattern import Conv2dGeneric, Conv2dDW, LinearGeneric
+    from plinio.cost.pattern import Conv2dGeneric, Conv2dDW, LinearGeneric, Conv1dGeneric, Conv1dDW
 
     def fn(spec):
         w = spec['_parameters']['weight']
@@ -190,6 +195,8 @@ def _probe_spec(record):
     cs = CostSpec(shared=True, default_behavior='zero')
     cs[Conv2dGeneric] = fn
     cs[Conv2dDW] = fn
+    cs[Conv1dGeneric] = fn
+    cs[Conv1dDW] = fn
     cs[LinearGeneric] = fn
     return cs
 
@@ -198,7 +205,7 @@ def _count_spec(which):
     """a probing spec that simply RETURNS the feature count it is shown (in or out), whatever the precisions: the layer cost is then
     sum_ij theta_in[i] * theta_w[j] * count = count, because both coefficient vectors are probability vectors"""
     from plinio.cost import CostSpec
-    from plinio.cost.pattern import Conv2dGeneric, Conv2dDW, LinearGeneric
+    from plinio.cost.pattern import Conv2dGeneric, Conv2dDW, LinearGeneric, Conv1dGeneric, Conv1dDW
 
     def fn(spec):
         keys = ('in_channels', 'in_features') if which == 'in' else ('out_channels', 'out_features')
@@ -212,6 +219,8 @@ def _count_spec(which):
     cs = CostSpec(shared=True, default_behavior='zero')
     cs[Conv2dGeneric] = fn
     cs[Conv2dDW] = fn
+    cs[Conv1dGeneric] = fn
+    cs[Conv1dDW] = fn
     cs[LinearGeneric] = fn
     return cs
 
